@@ -152,8 +152,8 @@ def make_api(r, shape):
         svc.rpc(v + "Thing", m.fqn, U.EMPTY if void else resp.fqn, ss=ss, sigs=sigs)
         plan.append({"rpc": v + "Thing", "sigs": sigs})
     # paginated RPCs with a method signature: in the API's package, and with the request in the other package when there is one
-    # (a paginated RPC whose request is a plain protobuf message cannot be called at all: reported, corpus witness paged_pb2_request)
-    homes = [("ListThings", api.main)] + ([("ListFarThings", other.file)] if shape == "sub" else [])
+    # (plain protobuf dependency requests included: the pager copies them with CopyFrom since /repo commit 9678930)
+    homes = [("ListThings", api.main)] + ([("ListFarThings", other.file)] if other is not None else [])
     for nm_, home in homes:
         lreq = home.message(nm_ + "Request")
         lreq.field("parent", 1, "string").field("filter", 2, "string").field("page_size", 3, "int32").field("page_token", 4, "string")
@@ -273,11 +273,11 @@ def witness_api(kind):
 
 
 # corpus/C05/<kind>.json holds each of these (written by write_corpus); the first four are the witnesses of defects that were
-# repaired in /repo (353b7c7, 14fc9e4, d43e852, 318bb4b): they stay so that a regression is reported
+# repaired in /repo (353b7c7, 14fc9e4, d43e852, 318bb4b; paged_pb2_request: 9678930): they stay so that a regression is reported
 WITNESSES = ["cross_two_repeated", "cross_dotted", "reserved_in_pb2", "reserved_segment", "presence", "pb2_reserved_leaf",
-             "sub_reserved_leaf", "module_named_param", "module_named_param_sub", "paged_reuse", "control_name", "duplicate_param", "empty_container_dotted", "falsy_request", "keyword_param_pb2"]
+             "sub_reserved_leaf", "module_named_param", "module_named_param_sub", "paged_reuse", "paged_pb2_request", "control_name", "duplicate_param", "empty_container_dotted", "falsy_request", "keyword_param_pb2"]
 # a witness whose class is not yet in findings/known_findings.json is reported in scratch/findings and joins the run once it is
-PENDING = {"pb2_nonprimitive_leaf": "flatten.nonprimitive_leaf_in_pb2_submessage", "paged_pb2_request": "pager.plain_protobuf_request"}
+PENDING = {"pb2_nonprimitive_leaf": "flatten.nonprimitive_leaf_in_pb2_submessage"}
 CORPUS = os.path.join(env.VERIF, "corpus", "C05")
 
 
@@ -860,9 +860,8 @@ class ApiRun:
             if o is None or (not o["ok"] and o.get("stage") == "import"):
                 continue
             if not o["ok"]:
-                pb2 = not self.idx.proto_plus_pkg(self.idx.package_of(rq))
                 ctx.violation(f"{m.name} ({variant}): listing twice with the same {style} raised {o['error']['exception']}: "
-                              f"{o['error']['message'][:160]}", case, "pager.plain_protobuf_request" if pb2 else None)
+                              f"{o['error']['message'][:160]}", case)
                 continue
             want = []
             for _ in range(2):
@@ -951,8 +950,6 @@ class ApiRun:
                 # two members of one oneof passed together: protobuf keeps the last one; the valuation model has no oneofs
                 # (ASSUMES); the direct oracle below still judges the call
                 ctx.features["same-oneof-pair (oracle only)"] += 1
-            elif paged(self.idx, m) and not self.idx.proto_plus_pkg(self.idx.package_of(rq)) and mode != "mixed":
-                ctx.features["paged rpc with a plain protobuf request (oracle only)"] += 1
             elif obs_term is not None:
                 self.checks.append((f"{self.tag}.{m.name} {variant} {mode} subset={case['subset']}: model outcome = observed",
                                     f"match {self.blk_name(k)} {cv} with Some b => outcome_eqb_on {coq.slist(mkeys_x)} {coq.slist(all_prefixes(mkeys_x))} "
@@ -961,8 +958,6 @@ class ApiRun:
                 ctx.oblige(f"T2 {self.tag}.{m.name} {variant} {mode}: outcome is one the model knows", False, outcome_detail(o), "T2")
             # ---- the property's own sentences
             known = "flatten.nonprimitive_leaf_in_pb2_submessage" if pb2_leaf else None
-            if paged(self.idx, m) and not self.idx.proto_plus_pkg(self.idx.package_of(rq)):
-                known = "pager.plain_protobuf_request"      # the pager copies the request with T(request): protobuf has no such constructor
             if mode == "request" and o.get("arg_before") is not None and o.get("arg_before") != o.get("arg_after"):
                 ctx.violation(f"{m.name} ({variant}): the call changed the caller's request object (it must not mutate its argument)",
                               dict(case, before=o["arg_before"], after=o["arg_after"]), known)
@@ -1145,7 +1140,7 @@ def error_cases(ctx):
 def run(ctx):
     jobs = corpus_jobs()
     ctx.oblige(f"corpus: the {len(WITNESSES)} witness APIs of corpus/C05 are present", len(jobs) >= len(WITNESSES), f"{len(jobs)} found", "build")
-    n = ctx.n(9, 120)
+    n = ctx.n(7, 120)
     shapes = ["same", "dep", "sub"]
     made = 0
     i = 0
